@@ -494,8 +494,10 @@ __goon:
 	for {
 		switch l.next() {
 		case utf8.RuneError:
-			l.errorf("invalid UTF-8 rune")
-			return lexRawString
+			if l.width == 1 { // an undecodable byte; the character U+FFFD itself (3 bytes) is ordinary text
+				l.errorf("invalid UTF-8 rune")
+				return lexRawString
+			}
 		case eof:
 			l.errorf("unterminated raw string")
 			return lexRawString
